@@ -477,6 +477,10 @@ func newBucketStorage(
 	htype histogramType,
 	buckets Buckets,
 ) bucketStorage {
+	// Keep a private copy: the caller may reuse its slice, and cache hits are
+	// validated by comparing against this specification.
+	buckets = copyBuckets(buckets)
+
 	var (
 		pairs   = BucketPairs(buckets)
 		storage = bucketStorage{
@@ -493,6 +497,26 @@ func newBucketStorage(
 	}
 
 	return storage
+}
+
+func copyBuckets(buckets Buckets) Buckets {
+	switch b := buckets.(type) {
+	case ValueBuckets:
+		if b == nil {
+			return buckets
+		}
+		c := make(ValueBuckets, len(b))
+		copy(c, b)
+		return c
+	case DurationBuckets:
+		if b == nil {
+			return buckets
+		}
+		c := make(DurationBuckets, len(b))
+		copy(c, b)
+		return c
+	}
+	return buckets
 }
 
 type bucketCache struct {
